@@ -47,8 +47,11 @@ int main(int argc, char **argv)
             int dc = sel < 4 ? 0 : sel - 3;
             int target_depth = (int) vh_range(DLO[dc], DHI[dc]);
             if (thorough && (vh_case_idx / 10) % 4 == 0) target_depth = (int) ((vh_case_idx / 40) % 256);      /* every depth 0..255 */
-            int chain_class = (int) vh_below(10);                 /* 0..6 none, 7: 9-11, 8: 19-21, 9: small chain */
-            int chain_left = chain_class == 7 ? (int) vh_range(9, 11) : chain_class == 8 ? (int) vh_range(19, 21) : chain_class == 9 ? (int) vh_range(1, 4) : 0;
+            /* include chains: none (64%), around the first two doublings of the file stack (9-11, 19-21), short, and -- the statement counts
+             * file nesting up to the 8-bit index too -- around the later doublings (39-41, 79-81, 159-161) and close to the index limit */
+            int chain_class = (int) vh_below(100);
+            int chain_left = chain_class < 64 ? 0 : chain_class < 74 ? (int) vh_range(9, 11) : chain_class < 84 ? (int) vh_range(19, 21) : chain_class < 92 ? (int) vh_range(1, 4)
+                           : chain_class < 94 ? (int) vh_range(39, 41) : chain_class < 96 ? (int) vh_range(79, 81) : chain_class < 98 ? (int) vh_range(159, 162) : (int) vh_range(240, 248);
             int files_left = chain_left ? (int) vh_below(2) : (int) vh_below(4);
             expansion_case = vh_coin(10);
             null_replaced = vh_coin(50);
@@ -84,7 +87,7 @@ int main(int argc, char **argv)
             /* ---- the tree */
             cx_g.ctxs = &ctxs; cx_g.n_reg = n_reg; cx_g.expansion = expansion_case;
             cx_g.target_depth = target_depth; cx_g.files_left = files_left; cx_g.chain_left = chain_left;
-            cx_g.cycles = vh_coin(30);
+            cx_g.cycles = vh_coin(30); cx_g.overlong_left = 3;
             cx_file *mainf = cx_gen_tree("main.cfg", balanced, 1);
             cx_g.cycles = 0;
             int max_level = cx_g.max_level;
@@ -141,6 +144,9 @@ int main(int argc, char **argv)
             vh_cov(vh_mix(0xDEE9, (uint64_t) lm.max_depth));             /* checks/c09.py looks these up: which maximum depths were reached */
             if (max_level >= 9) vh_count("include_chain_9_plus", 1);
             if (max_level >= 19) vh_count("include_chain_19_plus", 1);
+            if (max_level >= 79) vh_count("include_chain_79_plus", 1);
+            if (max_level >= 159) vh_count("include_chain_159_plus", 1);
+            if (max_level >= 240) vh_count("include_chain_240_plus", 1);
             vh_count("unknown_begins", lm.unknown_begins); vh_count("surplus_ends", lm.surplus_ends); vh_count("includes", lm.includes);
             vh_count("texts", lm.texts); vh_count("begins", lm.begins); vh_count("ends", lm.ends); vh_count("lines", lm.lines);
             if (null_replaced) vh_count("null_replaced_cases", 1); else vh_count("builtin_null_cases", 1);
